@@ -14,6 +14,9 @@ import Model.DeclMods
 import Spec.DeclMods
 import Generated.C07Decl
 import Proofs.Lemmas.DeclMods
+import Model.AccessDecl
+import Spec.AccessDecl
+import Proofs.Lemmas.AccessDecl
 /-!
 # C07 — visibility and declared types are enforced at every access path and boundary
 
@@ -1292,6 +1295,101 @@ example : VisOnce [Kw.vis .priv, Kw.flag .readonly, Kw.vis .priv] := by
   rw [hv, hw]
 
 end DeclarationKeywords
+
+/-! ## Round 6: an access is decided on three classes — scope, receiver, declaring class — and on shadowing
+
+`Site.decl` above is GIVEN; the nodes compute it: `canAccessDeclared` walks from the receiver's class to the first
+class that declares the name, applies the rule, and falls back to the scope class's own same-named member when the
+receiver's class inherits the scope class. `Model.AccessDecl` mirrors that function; which relation the fallback
+tests is the regenerated fact `Generated.C07Access.fallbackRel`. -/
+section Shadow
+open Model.AccessDecl Spec.AccessDecl Proofs.AccessDecl
+
+/-- **C07_declared_exact.** For every hierarchy (any depth), every assignment of declarations of one member name
+to classes (any subset, any modifiers PHP accepts), every scope (a class or none) and every receiver class: an
+access through `->` as coded — lookup from the receiver's class, public shortcut, `canAccessDeclared` with the
+directional fallback — is allowed exactly when PHP's rule allows it: the scope's own private member on an
+instance of the scope class, otherwise the rule on (scope, class of the nearest declaration, its modifier). -/
+theorem C07_declared_exact (H : Hier) (hd : NoDangling H) (ha : Acyclic H) (D : Decls) (hv : ValidOverride H D)
+    (scope : Option Name) (r : Name)
+    (hns : access H .recvExtendsScope D scope r ≠ .stuck) (hnm : access H .recvExtendsScope D scope r ≠ .nomember) :
+    access H .recvExtendsScope D scope r = .allowed ↔ allowedOn H D scope r :=
+  access_exact hd ha hv scope r hns hnm
+
+example : access shadowH .recvExtendsScope shadowD (some 1) 2 = .allowed ∧
+    access shadowH .recvExtendsScope shadowD (some 2) 2 = .allowed ∧
+    access shadowH .recvExtendsScope shadowD none 1 = .denied := by decide
+
+/-- **C07_ancestor_private_refused.** Code of a strict descendant `s` of the receiver's class never gets at a
+member whose nearest declaration from the receiver is private — whether or not `s` declares the name too. -/
+theorem C07_ancestor_private_refused (H : Hier) (hd : NoDangling H) (ha : Acyclic H) (D : Decls)
+    (hv : ValidOverride H D) (s r d : Name) (hsr : Sub H s r) (hne : s ≠ r)
+    (hn : Nearest H D r d) (hp : D d = some .priv) :
+    access H .recvExtendsScope D (some s) r ≠ .allowed := by
+  intro hacc
+  have hal := (access_exact hd ha hv (some s) r (by rw [hacc]; decide) (by rw [hacc]; decide)).mp hacc
+  cases hal with
+  | inl h1 =>
+    obtain ⟨s', hs', hsub, _⟩ := h1
+    cases hs'
+    exact hne (ha _ _ hsr hsub)
+  | inr h2 =>
+    obtain ⟨d', m', hn', hm', hal'⟩ := h2
+    have hdd := nearest_unique ha hn hn'
+    rw [← hdd, hp] at hm'
+    cases hm'
+    have hsd : some s = some d' := hal'
+    cases hsd
+    exact hne (ha _ _ hsr hn'.1)
+
+/-- **C07_symmetric_fallback_counterexample.** (the seeded change `C07-fallback-hierarchy-symmetric`, replayed by
+the shadowing stream as `shadow:leak:*:priv:descendant:shadowed`) With the symmetric relation in the fallback, code
+of class 2 — which extends 1 and declares a public member of the name — uses the PRIVATE member of class 1 on an
+object of class 1; the directional fallback refuses, and PHP's rule refuses. -/
+theorem C07_symmetric_fallback_counterexample :
+    access shadowH .symmetric shadowD (some 2) 1 = .allowed ∧
+    access shadowH .recvExtendsScope shadowD (some 2) 1 = .denied ∧
+    ¬ allowedOn shadowH shadowD (some 2) 1 := by
+  refine ⟨by decide, by decide, ?_⟩
+  intro h
+  have hroot : ∀ x, Sub shadowH 1 x → x = 1 := fun x hx => sub_of_root (by decide) hx
+  cases h with
+  | inl h1 =>
+    obtain ⟨s, hs, hsub, _⟩ := h1
+    cases hs
+    exact absurd (hroot 2 hsub) (by decide)
+  | inr h2 =>
+    obtain ⟨d, m, hn, hm, hal⟩ := h2
+    have hd1 := hroot d hn.1
+    subst hd1
+    have hmp : m = .priv := by
+      have : shadowD 1 = some .priv := by decide
+      rw [this] at hm; exact (Option.some.inj hm).symm
+    subst hmp
+    exact absurd hal (by simp [allowed])
+
+/-- without the fallback clause the scope class's own private member is refused on an object of a subclass that
+redeclares the name (the over-refusal the clause exists for; the stream reports it as `shadow:refused:*`) -/
+example : access shadowH .absent (fun n => if n = 1 then some .priv else if n = 2 then some .priv else none) (some 1) 2 = .denied ∧
+    access shadowH .recvExtendsScope (fun n => if n = 1 then some .priv else if n = 2 then some .priv else none) (some 1) 2 = .allowed := by
+  decide
+
+/-- **C07_fallback_directional.** Obligation on the regenerated fact: the last conjunct of `canAccessDeclared` is
+`classExtends(vm, class, scope.GetName())` — the receiver's class inherits the scope class — and `classExtends` is
+the one upward loop. -/
+theorem C07_fallback_directional : Generated.C07Access.fallbackRel = .recvExtendsScope := by decide
+
+/-- **C07_generated_declared_exact.** `C07_declared_exact` for the relation regenerated on this run. -/
+theorem C07_generated_declared_exact (H : Hier) (hd : NoDangling H) (ha : Acyclic H) (D : Decls)
+    (hv : ValidOverride H D) (scope : Option Name) (r : Name)
+    (hns : access H Generated.C07Access.fallbackRel D scope r ≠ .stuck)
+    (hnm : access H Generated.C07Access.fallbackRel D scope r ≠ .nomember) :
+    access H Generated.C07Access.fallbackRel D scope r = .allowed ↔ allowedOn H D scope r := by
+  have e := C07_fallback_directional
+  rw [e] at hns hnm ⊢
+  exact access_exact hd ha hv scope r hns hnm
+
+end Shadow
 
 /-- **C07_known_tightened.** The known tables shrank: no arm and no boundary is known worse than before the
 second round of repairs, 23 of the 38 arms and 9 of the 14 boundaries are known strictly better. -/
